@@ -164,8 +164,12 @@ def bytes_method(I, b, name, args, kwargs):
 def decode_bytes(I, b, args, kwargs):
     """latin-1 decoding is total and injective: kept structured as SStr('latin1', [octets])."""
     enc = args[0] if args else kwargs.get("encoding", "utf-8")
+    errors = args[1] if len(args) > 1 else kwargs.get("errors", "strict")
     if isinstance(enc, str) and enc.lower().replace("-", "_") in ("latin_1", "latin1", "iso_8859_1", "iso8859_1", "l1"):
         return SStr("latin1", [SBytes(list(b.segs))])
+    if isinstance(enc, str) and enc.lower() in ("ascii", "us-ascii") and errors == "replace":
+        # one character per octet; octets >= 0x80 become U+FFFD (kept as the octets they came from)
+        return SStr("ascii_replace", [SBytes(list(b.segs))])
     raise Unsupported(f"bytes.decode({enc!r}) on symbolic bytes")
 
 
@@ -300,6 +304,19 @@ def dict_method(I, d, name, args, kwargs):
 
 def set_method(I, s, name, args, kwargs):
     if _sym(args):
+        # sets of objects: membership by the interpreted == (first equal element), stored by identity
+        if name in ("add", "discard", "remove") and len(args) == 1:
+            i = _find_index(I, list(s), args[0])
+            if name == "add":
+                if i is None:
+                    s.add(args[0])
+                return None
+            if i is None:
+                if name == "remove":
+                    I.raise_py(KeyError, args[0])
+                return None
+            s.discard(list(s)[i])
+            return None
         raise Unsupported(f"set method {name} with symbolic values")
     try:
         return getattr(s, name)(*args, **kwargs)
